@@ -97,6 +97,8 @@ def selector(S, n, entry):
         else:
             member = lambda p: S.land(p <= lo, S.mod(lo - p, -step) == 0, S.div(lo - p, -step) < cnt)
         return cnt, (lambda k: lo + step * k), member
+    if isinstance(entry, list):
+        entry = S.asarray(entry)          # a Python list of positions (what Axis.loc returns for a list looked up with tol=)
     if S.is_array(entry):
         if S.kind(entry) == "b":
             pos = S.mask_positions(entry)
